@@ -253,6 +253,70 @@ def mechanical(fn, how):
     return f
 
 
+def more_mechanical(fn, how):
+    """how="tempargs": in every expression / assignment / return statement whose value is a call, each argument that is
+    itself a call is first bound to a fresh local (left to right), then passed:  f(g(x), y)  ->  _t1 = g(x); f(_t1, y)
+    how="logging":  a debug logging statement is inserted at the start of every block of every method of a class"""
+    def f(src):
+        out = dict(src)
+        tree = ast.parse(src[fn])
+        counter = [0]
+
+        def fresh():
+            counter[0] += 1
+            return f"_tmp_arg_{counter[0]}"
+
+        class T(ast.NodeTransformer):
+            def __init__(self):
+                self.in_method = False
+
+            def visit_ClassDef(self, node):
+                old_, self.in_method = self.in_method, True
+                self.generic_visit(node)
+                self.in_method = old_
+                return node
+
+            def visit_Lambda(self, node):
+                return node
+
+            def _block(self, stmts, owner):
+                outb = []
+                if how == "logging" and self.in_method and stmts and not isinstance(owner, ast.ClassDef) \
+                        and not (isinstance(stmts[0], ast.Expr) and isinstance(stmts[0].value, ast.Constant)):
+                    outb.append(ast.parse('logging.debug("trace")').body[0])
+                for st in stmts:
+                    if how == "tempargs" and isinstance(st, (ast.Expr, ast.Assign, ast.Return)) and isinstance(st.value, ast.Call) \
+                            and not any(isinstance(a, ast.Starred) for a in st.value.args):
+                        call = st.value
+                        pre = []
+                        for i, a in enumerate(call.args):
+                            if isinstance(a, ast.Call):
+                                nm = fresh()
+                                pre.append(ast.Assign(targets=[ast.Name(id=nm, ctx=ast.Store())], value=a))
+                                call.args[i] = ast.Name(id=nm, ctx=ast.Load())
+                            elif not isinstance(a, (ast.Name, ast.Constant, ast.Attribute)):
+                                break   # keep left-to-right evaluation: stop at the first argument that is not trivially pure
+                        outb.extend(pre)
+                    outb.append(st)
+                    if how == "logging" and self.in_method and isinstance(st, ast.Expr) and isinstance(st.value, ast.Constant) and st is stmts[0]:
+                        outb.append(ast.parse('logging.debug("trace")').body[0])
+                return outb
+
+            def generic_visit(self, node):
+                super().generic_visit(node)
+                for fld in ("body", "orelse", "finalbody"):
+                    v = getattr(node, fld, None)
+                    if isinstance(v, list) and v and isinstance(v[0], ast.stmt):
+                        setattr(node, fld, self._block(v, node))
+                return node
+
+        tree = T().visit(tree)
+        ast.fix_missing_locations(tree)
+        out[fn] = ast.unparse(tree) + "\n"
+        return out
+    return f
+
+
 def delegate_public(fn, names):
     """every listed method of FileHashStore keeps its signature and delegates to a new private `_<name>_impl` that holds its body"""
     def f(src):
@@ -678,6 +742,8 @@ def sweep(prop, A, jobs=16):
     for how, what in (("swapeq", "operands of every == / != swapped"), ("keywords", "positional arguments of every self.method(...) call passed by keyword"),
                       ("retinline", "`x = e; return x` written as `return e`"), ("withmerge", "directly nested with-statements merged")):
         generic.append((prop, None, f"twin: {what}", chain(mechanical(FHS, how), mechanical(CLI, how))))
+    generic.append((prop, None, "twin: call arguments that are calls first bound to fresh locals", chain(more_mechanical(FHS, "tempargs"), more_mechanical(CLI, "tempargs"))))
+    generic.append((prop, None, "twin: a debug logging statement at the start of every block of every method", chain(more_mechanical(FHS, "logging"), more_mechanical(CLI, "logging"))))
     from .engine import PUBLIC_API
     generic.append((prop, None, "twin: every public method delegates to a private _<name>_impl that holds its body", delegate_public(FHS, set(PUBLIC_API))))
     combo = []
